@@ -57,7 +57,7 @@ class Operator:
         return self.roles.get(bid, "?")
 
 
-def _mentions_closure(e, cid):
+def _mentions_closure(e, cid, chain=False):
     """Does the expression use closure `cid` as a value?  Being captured by another closure is not a use: what that closure
     does with the capture shows up in its own effects."""
     stack = [e]
@@ -73,6 +73,9 @@ def _mentions_closure(e, cid):
             if x[0] == "agg" and len(x) > 3 and x[1] in ("closure", "coroutine"):
                 if x[2] == cid:
                     return True
+                continue
+            if chain and x[0] == "call" and x[2] in ("std::iter::Iterator::filter", "std::iter::Iterator::filter_map", "std::iter::Iterator::map") and len(x[3]) == 2:
+                stack.append(x[3][0])       # the closure argument of the adaptor the chain model has absorbed is not a use
                 continue
             stack.extend(y for y in x[1:] if isinstance(y, tuple))
         else:
@@ -109,7 +112,7 @@ class Model:
                 body_effects(P, P.bodies[bid])
         # a local closure with arguments that was inlined at every direct call and is mentioned by no remaining effect (not sent,
         # stored, or passed on) has no other caller: its own body is not an arm of anything
-        for cid in sorted(P.inlined_closures):
+        for cid in sorted(P.inlined_closures | P.chain_closures):
             own = {cid} | {b for b in P.bodies if cid in P.ancestors(b)}
             escaped = False
             for op in self.ops.values():
@@ -117,10 +120,14 @@ class Model:
                     if bid in own:
                         continue
                     for e in self.all_effects(bid):
+                        ischain = cid in P.chain_closures
+                        if ischain and e.kind == "hocall" and e.get("callee") in ("std::iter::Iterator::filter", "std::iter::Iterator::filter_map", "std::iter::Iterator::map") \
+                                and e.args and not _mentions_closure(e.args[0], cid, True):
+                            continue        # the adaptor call that the chain model has absorbed
                         for val in e.d.values():
                             vals = val if isinstance(val, (list, tuple)) and val and not isinstance(val[0], str) else [val]
                             for x0 in vals:
-                                if isinstance(x0, tuple) and _mentions_closure(x0, cid):
+                                if isinstance(x0, tuple) and _mentions_closure(x0, cid, ischain):
                                     escaped = True
             if not escaped:
                 for op in self.ops.values():
